@@ -26,6 +26,17 @@ CHECKS = {
         "Simulated reads only; mode 4 judged only with pseudogene + deletion allele + estimated structure; mode 5 only on routes using a neutral region.",
         "DESIGN.md 5/C19",
     ),
+    "C05": (
+        "differential testing: Hypothesis-generated models vs exhaustive enumeration of all binary assignments; exhaustive helper linearisations; cross-solver (SCIP, HiGHS) audit of the models aldy builds",
+        "(i) random models of aldy's shape built through aldy.lpinterface and enumerated over all 2^n binary assignments: first solution "
+        "optimal, every yielded tuple feasible with its objective and within the gap, no duplicates, non-decreasing order, nothing within the "
+        "gap lost except supersets of yielded solutions, typed read-back, unique escaped names; (ii) exhaustive: product of 1-4 factors is the "
+        "AND for every factor assignment (min and max of the product variable), abssum equals the weighted sum of absolute values for all sign "
+        "patterns of 1-4 terms; (iii) every model the structure / major / minor stages build for drawn toy-gene problems is exported and solved "
+        "with SCIP and HiGHS, each yielded point re-verified against the exported rows, and the exhausted model re-solved.",
+        "CBC path only (Gurobi absent); SCIP/HiGHS trusted as independent solvers.",
+        "DESIGN.md 5/C05",
+    ),
     "C06": (
         "differential testing of Sample's evidence table against an independent CIGAR interpreter and htslib's pileup on Hypothesis-generated read sets, plus metamorphic relations",
         "Random read sets (CIGAR grammar over M,=,X,I,D,S,H incl. leading/adjacent indels, all flag kinds, mapq/base-quality bin edges, shared "
